@@ -676,8 +676,9 @@ class BaseCarver(BaseDiscretizer):
                 # case 1: test sample provided -> testing robustness
                 else:
                     # grouping the dev sample per modality
+                    # (a modality absent from X_dev counts for zero rows)
                     grouped_xagg_dev = self._grouper(  # pylint: disable=E1101
-                        xagg_dev, association["index_to_groupby"]
+                        xagg_dev.fillna(0), association["index_to_groupby"]
                     )
 
                     # computing target rate and frequency per modality
